@@ -1637,6 +1637,14 @@ class Printer:
                     if key in self.unit['sz_witness']:
                         self.fire('sz:witness-assignment')
                         return t + self.sz_wfill(self.unit['sz_witness'][key], [l0['inner'][2]]) + ';\n'
+        if nn.get('kind') in ('BinaryOperator', 'CompoundAssignOperator') and self.unit.get('sz_witness'):
+            # plain or compound assignment to a member named in the witness map (`<member>=`), whatever object it belongs to
+            l1 = nn['inner'][0]
+            while l1.get('kind') in ('ImplicitCastExpr', 'ParenExpr') and l1.get('inner'):
+                l1 = l1['inner'][0]
+            if l1.get('kind') == 'MemberExpr' and ('%s=' % l1.get('name')) in self.unit['sz_witness'] and nn.get('opcode', '=').endswith('=') and nn.get('opcode') not in ('==', '!=', '<=', '>='):
+                self.fire('sz:witness-member-assignment')
+                return t + self.unit['sz_witness']['%s=' % l1['name']] + ';\n'
         if nn.get('kind') in ('BinaryOperator', 'CompoundAssignOperator') and (nn.get('opcode') == '=' or nn.get('kind') == 'CompoundAssignOperator'):
             lhs = nn['inner'][0]
             while lhs.get('kind') in ('ImplicitCastExpr', 'ParenExpr') and lhs.get('inner'):
